@@ -576,10 +576,27 @@ func checkBackendErrors(c *Ctx, rule string, gt *types.Named, filter func(*ssa.C
 		}
 		handled, updatedOnFail := false, false
 		tested := false
+		// the error may be merged with other error values before it is tested (err := φ(refusal, backend error)):
+		// testing, returning or reporting the merged value observes it
+		isErr := map[ssa.Value]bool{errV: true}
+		for changed := true; changed; {
+			changed = false
+			for _, b := range f.Blocks {
+				for _, in := range b.Instrs {
+					if ph, isPhi := in.(*ssa.Phi); isPhi && !isErr[ph] {
+						for _, e := range ph.Edges {
+							if isErr[e] {
+								isErr[ph], changed = true, true
+							}
+						}
+					}
+				}
+			}
+		}
 		for _, b := range f.Blocks {
 			for _, in := range b.Instrs {
 				gs := p.Guards(in)
-				failing := nilGuard(gs, false, func(s *Sym) bool { return s.V == errV })
+				failing := nilGuard(gs, false, func(s *Sym) bool { return isErr[s.V] })
 				if !failing {
 					continue
 				}
@@ -587,14 +604,14 @@ func checkBackendErrors(c *Ctx, rule string, gt *types.Named, filter func(*ssa.C
 				switch x := in.(type) {
 				case *ssa.Return:
 					ei := errResultIndex(f.Signature)
-					if ei >= 0 && retValue(x, ei) == errV {
+					if ei >= 0 && isErr[retValue(x, ei)] {
 						handled = true
 					}
 				case ssa.CallInstruction:
 					cm := x.Common()
 					if !cm.IsInvoke() && cm.StaticCallee() == nil && p.Sym(cm.Value).Strip().IsField("game", "onGameErrorUpdated") {
 						for _, a := range cm.Args {
-							if a == errV {
+							if isErr[a] {
 								handled = true
 							}
 						}
